@@ -15,6 +15,19 @@ CHECKS = {
              'executions listed in the evidence, not a proof for 16..128 bits.',
         note='trusts Python int arithmetic; shift counts <= 200 and exponents <= 70 except dedicated boundary-count cases',
         design='2/C14'),
+    'C15': dict(
+        technique='runtime structural-law monitor: independent serialiser/substituter + IR interpreter next to eq/hash/copy/visit/replace_expr/canonize on generated trees and single-field mutants',
+        text='Every generated tree (all seven node kinds, segmented memory, assignments) is run through eq/hash/copy/visit/replace_expr/canonize '
+             'while an independent structural implementation and the independent interpreter decide each law; every single-field mutation of '
+             'every node must compare unequal. Held on the trees of the evidence file (depth<=4), not a proof.',
+        note='trusts vf/irsem.py and vf/exprgen.canon as the meaning/structure of the IR',
+        design='2/C15'),
+    'C16': dict(
+        technique='runtime dependency probing with an independent IR interpreter against get_r/get_w; MatchExpr against an independent matcher and substitution on instances and mutated non-instances',
+        text='Each identifier and memory cell of a generated expression is perturbed on concrete valuations; a witnessed influence that is missing from '
+             'get_r is a violation. MatchExpr results are substituted back and compared structurally; mutants rejected by the reference matcher must be rejected.',
+        note='trusts vf/irsem.py; segment selectors are not probed (flat memory)',
+        design='2/C16'),
 }
 
 PENDING_REASON = 'check not built yet in this round (runtime-monitoring design in DESIGN.md section 2); not claimed until it runs clean'
